@@ -505,17 +505,103 @@ def b_reversed(I, a, k):
 
 def b_sorted(I, a, k):
     items = Mo.concrete_iter(I, a[0])
-    if items is None or any(isinstance(x, SV) for x in items) or k:
+    key = k.get('key')
+    if items is None or any(isinstance(x, SV) for x in items) or (set(k) - {'key', 'reverse'}) or isinstance(k.get('reverse', False), SV):
         raise Unsupported('sorted')
-    return I.st.alloc('clist', sorted(items))
+    if key is not None:
+        ks = [I.call(key, [x], {}) for x in items]
+        if any(isinstance(x, SV) or numkind(x) is None for x in ks):
+            raise Unsupported('sorted with a symbolic key')
+        order = sorted(range(len(items)), key=lambda i: ks[i], reverse=bool(k.get('reverse', False)))
+        return I.st.alloc('clist', [items[i] for i in order])
+    return I.st.alloc('clist', sorted(items, reverse=bool(k.get('reverse', False))))
+
+
+def round_half_even(I, x, decimals=0):
+    """numpy.round / python round on the REAL number: nearest multiple of 10**-decimals, ties to the even multiple
+    (floats are reals here: the value numpy returns differs from this by rounding error of the scaling only)"""
+    if not isinstance(decimals, int) or isinstance(decimals, bool):
+        raise Unsupported('round with symbolic digits')
+    scale = 10 ** abs(decimals)
+    if isinstance(x, SV):
+        t = zreal(x)
+        u = t * scale if decimals >= 0 else t / scale
+        f = z3.ToInt(u)
+        frac = u - z3.ToReal(f)
+        r = z3.If(frac < z3.RealVal('1/2'), f, z3.If(frac > z3.RealVal('1/2'), f + 1, z3.If(f % 2 == 0, f, f + 1)))
+        rr = z3.ToReal(r)
+        return SV(rr / scale if decimals >= 0 else rr * scale, 'real')
+    if numkind(x) is None:
+        raise PyExc('TypeError', 'round of a non-number')
+    from fractions import Fraction
+    import math
+    u = Fraction(x) * scale if decimals >= 0 else Fraction(x) / scale
+    f = math.floor(u)
+    frac = u - f
+    r = f if frac < Fraction(1, 2) else f + 1 if frac > Fraction(1, 2) else (f if f % 2 == 0 else f + 1)
+    v = Fraction(r) / scale if decimals >= 0 else Fraction(r) * scale
+    return float(v)
+
+
+def np_round(I, a, k):
+    x = a[0]
+    d = k.get('decimals', a[1] if len(a) > 1 else 0)
+    if d is None:
+        d = 0
+    if Mo.is_list(x) or isinstance(x, tuple):
+        items = Mo.concrete_iter(I, x)
+        if items is None:
+            raise Unsupported('numpy.round of a symbolic-length array')
+        if any(Mo.is_list(y) for y in items):
+            raise Unsupported('numpy.round of a 2-d array')
+        return I.st.alloc('clist', [round_half_even(I, y, d) for y in items], nd=True)
+    return round_half_even(I, x, d)
+
+
+def np_choose(I, a, k):
+    """numpy.choose(mask, (c0, c1)) with a boolean / 0-1 selector of concrete length: c1[i] where mask[i] else c0[i]"""
+    sel = Mo.concrete_iter(I, a[0])
+    choices = Mo.concrete_iter(I, a[1])
+    if sel is None or choices is None or len(choices) != 2 or k:
+        raise Unsupported('numpy.choose (only two choices, concrete length)')
+    cols = []
+    for c in choices:
+        ci = Mo.concrete_iter(I, c) if (Mo.is_list(c) or isinstance(c, tuple)) else [c] * len(sel)
+        if ci is None or len(ci) != len(sel):
+            raise Unsupported('numpy.choose with mismatching shapes')
+        cols.append(ci)
+    out = []
+    for i, m in enumerate(sel):
+        if isinstance(m, SV):
+            out.append(I.ite(zbool(m) if m.kind == 'bool' else (zint(m) != 0), cols[1][i], cols[0][i]))
+        else:
+            out.append(cols[1][i] if m else cols[0][i])
+    r = I.st.alloc('clist', out, nd=True)
+    return _as_dtype(I, r, None)
 
 
 def b_pow(I, a, k):
     return Mo.power(I, a[0], a[1])
 
 
+def b_isint(I, a, k):
+    """contract vocabulary: the number is a whole number"""
+    x = a[0]
+    if isinstance(x, SV):
+        if x.kind in ('int', 'bool'):
+            return True
+        return SV(z3.ToReal(z3.ToInt(x.t)) == x.t, 'bool')
+    if numkind(x) is None:
+        raise PyExc('TypeError', 'isint of a non-number')
+    return float(x) == int(x)
+
+
 def b_round(I, a, k):
-    raise Unsupported('round')
+    if len(a) > 1 and a[1] is not None:
+        return round_half_even(I, a[0], a[1])
+    r = round_half_even(I, a[0], 0)
+    # python's round(x) returns an int
+    return SV(z3.ToInt(r.t), 'int') if isinstance(r, SV) else int(r)
 
 
 def b_callable(I, a, k):
@@ -628,6 +714,7 @@ def builtins(I):
     reg('same', lambda I_, a, k: _identical(I_, a[0], a[1]))
     reg('seq_eq', lambda I_, a, k: Mo.equal(I_, a[0], a[1]))
     reg('isinf', lambda I_, a, k: Mo.compare(I_, ast.Eq(), a[0], SV(INF, 'real')))
+    reg('isint', b_isint)
     b['inf'] = SV(INF, 'real')
     b['True'] = True
     b['False'] = False
@@ -1055,6 +1142,8 @@ def lib_lookup(I, dotted):
         'numpy.squeeze': Builtin('numpy.squeeze', np_squeeze),
         'numpy.zeros': Builtin('numpy.zeros', _np_filled(0.0)), 'numpy.ones': Builtin('numpy.ones', _np_filled(1.0)),
         'numpy.clip': Builtin('numpy.clip', np_clip),
+        'numpy.round': Builtin('numpy.round', np_round), 'numpy.around': Builtin('numpy.round', np_round),
+        'numpy.choose': Builtin('numpy.choose', np_choose),
         'numpy.equal': Builtin('numpy.equal', np_equal),
         'numpy.eye': Builtin('numpy.eye', np_eye),
         'numpy.argsort': Builtin('numpy.argsort', np_argsort),
